@@ -103,3 +103,24 @@ struct CBuf {   // RAII carquet_buffer_t
   ~CBuf() { carquet_buffer_destroy(&b); }
   std::vector<uint8_t> bytes() const { return std::vector<uint8_t>(b.data, b.data + b.size); }
 };
+
+// The buffer-based encoders write into a carquet_buffer_t the caller may already have filled (page after page into one
+// buffer).  The same call into a buffer holding `pre` bytes must end with  prefix || E  (appending) or  E  (a buffer the
+// encoder cleared), E being what it writes into an empty buffer - and must stay inside its allocation (ASan).  The prefix
+// length is a pure function of E: none for a third of the cases, else just below / at a power-of-two capacity step.
+template <class F> inline std::string appendCheck(const std::vector<uint8_t> &alone, F encode) {
+  uint64_t h = 1469598103934665603ull; for (uint8_t x : alone) { h ^= x; h *= 1099511628211ull; } h ^= alone.size() * 0x9E3779B97F4A7C15ull; h ^= h >> 29;
+  if (h % 3 == 0) return "";
+  size_t pre = (h >> 4) % 5 == 0 ? 1 + (h >> 8) % 200 : ((size_t)1 << (6 + (h >> 8) % 9)) - (h >> 16) % 41;
+  std::vector<uint8_t> p(pre); uint64_t s = h | 1; for (auto &x : p) { s ^= s << 13; s ^= s >> 7; s ^= s << 17; x = (uint8_t)(s >> 24); }
+  CBuf b;
+  if (carquet_buffer_append(&b.b, p.data(), pre) != CARQUET_OK) return "";
+  if (encode(&b.b) != CARQUET_OK) return "";
+  std::vector<uint8_t> got = b.bytes();
+  if (got == alone) return "";
+  char m[200];
+  if (got.size() != pre + alone.size()) { snprintf(m, sizeof m, "into a buffer that already holds %zu bytes the encoder leaves %zu bytes; alone it writes %zu", pre, got.size(), alone.size()); return m; }
+  if (memcmp(got.data(), p.data(), pre) != 0) { snprintf(m, sizeof m, "the %zu bytes the buffer held before the call were modified", pre); return m; }
+  if (memcmp(got.data() + pre, alone.data(), alone.size()) != 0) { snprintf(m, sizeof m, "behind %zu earlier bytes the encoder appends different bytes than it writes into an empty buffer (%zu bytes)", pre, alone.size()); return m; }
+  return "";
+}
